@@ -948,7 +948,9 @@ def rule_r8(ctx):
                     while p is not None and p is not f.node:
                         if isinstance(p, ast.If):
                             txt = norm(p.test)
-                            if f"{tgt.id}.uses()" in txt and re.search(r"\b%s (not )?in \w*outputs\b" % re.escape(tgt.id), txt):
+                            member = any(isinstance(c, ast.Compare) and len(c.ops) == 1 and isinstance(c.ops[0], (ast.In, ast.NotIn)) and norm(c.left) == tgt.id
+                                         and isinstance(c.comparators[0], (ast.Name, ast.Attribute, ast.Call)) for c in ast.walk(p.test))
+                            if f"{tgt.id}.uses()" in txt and member:
                                 ok = True
                         p = getattr(p, "_parent", None)
                     why = f"`{tgt.id}` is not under a condition testing `{tgt.id}.uses()` and its membership in the graph outputs"
